@@ -1,0 +1,7 @@
+//go:build !verif
+// +build !verif
+
+package core
+
+func verifHoldTicker(_ *eventloop) bool { return false }
+func verifRefreshIdle()                 {}
